@@ -19,7 +19,7 @@ pub fn prop() -> Prop {
     Prop {
         id: "C34", title: "Timer interrupts follow the configured interval", level: "exploration",
         rule: "Phase 0: TimerDevices with exact counts n in 1..=1000 and ranges a..=b / a..b / (Excluded(a-1), Included(b)) / a.. (1 <= a; for a.. only the minimum is checked), random seeds, vectors and priorities are polled directly 2000-10000 times with random enable/disable toggles, io_reset and reset_remaining calls. Monitor over the poll history: \
-               (i) the number of polls strictly between two consecutive interrupts (with no reset in between) lies in the range; across a disable/enable pause the gap is accepted if either the enabled polls or all polls lie in the range lies in the range (= n for an exact count); (ii) after enabling, io_reset or reset_remaining the first interrupt comes within max+1 enabled polls; \
+               (i) the number of polls strictly between two consecutive interrupts (with no reset in between) lies in the range; across a disable/enable pause the gap is accepted if either the enabled polls or all polls lie in the range (= n for an exact count); (ii) after enabling, io_reset or reset_remaining the first interrupt comes within max+1 enabled polls; \
                (iii) no interrupt while disabled; (iv) two timers with the same seed and operation sequence produce identical fire sequences, vector and priority as configured (priority clamped to 7). \
                Phase 1: the same timer wrapped in a recording device inside a Simulator running an endless loop, with (in half of the cases) an earlier-registered device that raises external interrupts: the timer must be polled exactly once per step (also on steps aborted by an external interrupt), and the recorded poll/fire log must satisfy (i) and (ii); interrupt entries are counted from the machine state. \
                Phase 2: the timer shared through Arc<Mutex<_>> or Arc<RwLock<_>> (the library's ExternalDevice impls for both), enabled by a controller thread that in half of the cases dies holding the guard (lock poisoned but free): polled directly or inside a Simulator, it must fire and satisfy (i) and (ii). \
